@@ -1,5 +1,48 @@
-From Verif Require Import Common Op_Model Op_Corr C17_Spec.
-Definition case := Op_Corr.case.
-Definition model_obs := Op_Corr.model_obs.
-Definition mismatches := Op_Corr.mismatches.
-Definition spec_violations (cs : list case) : list N := indices_where (fun c => negb (P c)) cs.
+(* C17_Corr.v — two kinds of cases: operator-level scenarios (model Op_Model, spec C17_Spec.P)
+   and Shutdown() requested while the main worker hangs inside an API call (class CHang): the lock
+   program translated from the current source must pass lock_ok (C17_Locks; theorem
+   C17_blocked_threads_hold_no_lock) and the real operator must have stopped its other queues. *)
+From Verif Require Import Common Op_Model Op_Corr C17_Spec C17_Locks.
+Open Scope N_scope.
+
+Record hang_obs := mkHangObs {
+  hg_reached : bool;        (* the main worker was inside the hanging LIST when Shutdown was requested *)
+  hg_returned : bool;       (* Shutdown() returned within the bound *)
+  hg_stopped : bool;        (* every other queue's worker has terminated *)
+  hg_started_after : N;     (* executions started after the stop request *)
+  hg_bad : bool
+}.
+
+Inductive case :=
+| COp (c : Op_Corr.case)
+| CHang (p : program) (o : hang_obs).
+
+Inductive mobs := MOp (o : list sobs) | MHang (o : hang_obs).
+
+(* the model of the hanging case: with a lock program that passes the check nothing on the way
+   of Shutdown() waits for the hanging thread (C17_lock_holders_can_move): it returns, the workers
+   terminate as their handlers return (C17_handler_return_stops_worker), nothing starts
+   (C17_no_new_execution_after_stop) *)
+Definition model_obs (c : case) : mobs :=
+  match c with
+  | COp c => MOp (Op_Corr.model_obs c)
+  | CHang _ _ => MHang (mkHangObs true true true 0 false)
+  end.
+
+Definition hang_ok (o : hang_obs) : bool :=
+  negb (hg_bad o) && hg_reached o && hg_returned o && hg_stopped o && N.eqb (hg_started_after o) 0.
+
+Definition agrees (c : case) : bool :=
+  match c with
+  | COp c => Op_Corr.agrees c
+  | CHang _ o => hang_ok o
+  end.
+
+Definition spec_ok (c : case) : bool :=
+  match c with
+  | COp c => C17_Spec.P c
+  | CHang p o => lock_ok p && hang_ok o
+  end.
+
+Definition mismatches (cs : list case) : list N := indices_where (fun c => negb (agrees c)) cs.
+Definition spec_violations (cs : list case) : list N := indices_where (fun c => negb (spec_ok c)) cs.
